@@ -1,14 +1,17 @@
-From QV Require Import model.Base model.Lang model.Types model.Tir model.Builder model.Passes model.TirCase gen.GenE0 proofs.InterpProofs proofs.BuilderSafe proofs.BuilderSafeStmt props.C07.
+From QV Require Import model.Base model.Lang model.Types model.Tir model.Builder model.Passes model.TirCase gen.GenE0 proofs.InterpProofs proofs.BuilderSafe proofs.BuilderSafeStmt proofs.BuilderSafeSwitch props.C07.
 Check (C07_interp_total : forall E c, evaluate_code E c <> OutOfFuel).
 Check (C07_repaired_inputs).
 Check (C07_expressions_never_panic : forall E env L e s,
   (forall x l k, lenv_get env x = Some (l, k) -> l < L)%nat -> Good s -> (L <= List.length (bs_locals s))%nat ->
   match walk_expr E env e s with (P _, _) => False | (_, s') => RegB (nb s) s s' end).
 Check (C07_initial_state_good : Good bstate0).
-Check (C07_switch_free_statements_never_panic : forall E s, noswitch s = true -> forall env brk st,
+Check (C07_statements_never_panic : forall E s, wfsw s = true -> forall env brk st,
   Good st -> envwf (nloc st) env ->
   match walk_stmt E env brk s st with
   | (P _, _) => False
   | (V (ok, env'), st') => RegB (nb st) st st' /\ envwf (nloc st') env'
   | (F, st') => RegB (nb st) st st'
   end).
+Check (C07_translator_never_panics : forall E cb, wf_callback cb = true ->
+  match walk_callback E cb bstate0 with (P _, _) => False | _ => True end).
+Check (eq_refl : wfsw (SSwitch (EInt 1) [] (Some (1%nat, []))) = false).
